@@ -86,10 +86,24 @@ def rel_C11(ln, prev):
 
 
 def rel_C15(ln, prev):
+    if ln['op'] == 'TwinEq':
+        if ln['api'] == 'reset':
+            ln['args'] = dict(of=ln['of'], res=ln['a']['res'], ents=ln['a']['obs']['ents'])
+            return True
+        return False
     if ln['op'] == 'Reset' and _ok(ln) and prev and 'obs' in prev:
         ln['args'] = dict(before=prev['obs']['ents'], sweep=prev.get('sweep'))
         return True
     return False
+
+
+def rel_C17(ln, prev):
+    if ln['op'] == 'TwinEq':
+        if ln['api'] == 'load':
+            ln['args'] = dict(of=ln['of'], res=ln['a']['res'], pool=ln['a']['obs']['pool'])
+            return True
+        return False
+    return ln['op'] in {'Dump', 'Load', 'Fork'}
 
 
 def rel_C20(ln, prev):
@@ -137,6 +151,9 @@ def finish(ctx, relevant, pairs, results, mc, level, assumptions, extra_cov=None
                 prev = None
                 name = ln['args']['name']
             else:
+                ln.setdefault('args', {})
+                ln.setdefault('res', {'panic': False, 'ret': -1})
+                ln.setdefault('events', [])
                 if relevant(ln, prev):
                     distinct.add(digest([ln['op'], ln['api'], ln['args'], ln.get('obs', {}).get('ents')]))
                     ops[ln['op']] = ops.get(ln['op'], 0) + 1
@@ -205,6 +222,10 @@ A_WORLD = ['the TLA+ specification (spec/ArcheAbs.tla) states the intended obser
            'histories are bounded by the tier (schedules x steps); universes are small (<= 10 entities)']
 
 
+def mc_pool(ctx):
+    return [('MCPool.tla', 'MCPool.cfg' if ctx.quick else 'MCPool_thorough.cfg', dict(timeout=1200))]
+
+
 def mc_abs(ctx, locks=False):
     """Exhaustive model checking of layer 1 for the tier."""
     if ctx.quick:
@@ -212,8 +233,9 @@ def mc_abs(ctx, locks=False):
     return [('MCAbs.tla', 'MCAbs_thorough.cfg', dict(timeout=3000)), ('MCAbs.tla', 'MCAbs_locks.cfg', dict(timeout=900))]
 
 
-def W(rel, profiles, locks=False, **kw):
-    return lambda ctx: world_check(ctx, rel, profiles, mcs=mc_abs(ctx, locks), assumptions=A_WORLD, **kw)
+def W(rel, profiles, locks=False, pool=False, **kw):
+    return lambda ctx: world_check(ctx, rel, profiles, mcs=mc_abs(ctx, locks) + (mc_pool(ctx) if pool else []),
+                                   assumptions=A_WORLD, **kw)
 
 
 def c04(ctx):
@@ -275,7 +297,7 @@ def c04(ctx):
 
 PROPS = {
     'C01': W(rel_C01, [('base', 120, 1500), ('spread', 80, 1000)]),
-    'C02': W(rel_C02, [('base', 100, 1500), ('churn', 100, 1000)]),
+    'C02': W(rel_C02, [('base', 100, 1500), ('churn', 100, 1000)], pool=True),
     'C03': W(rel_C03, [('base', 100, 1500), ('query', 100, 1000)]),
     'C04': c04,
     'C05': W(rel_C05, [('base', 100, 1500), ('relations', 100, 1000)]),
@@ -285,6 +307,7 @@ PROPS = {
     'C09': W(rel_C09, [('base', 60, 1000), ('locks', 140, 1500)], locks=True),
     'C10': W(rel_C10, [('base', 60, 1000), ('faults', 140, 1500)]),
     'C11': W(rel_C11, [('events', 200, 2500)]),
-    'C15': W(rel_C15, [('reset', 200, 2500)]),
+    'C15': W(rel_C15, [('resettwin', 160, 2000), ('reset', 40, 500)], pool=True),
+    'C17': lambda ctx: world_check(ctx, rel_C17, [('loadtwin', 200, 2500)], mcs=mc_pool(ctx), assumptions=A_WORLD),
     'C20': W(rel_C20, [('base', 60, 1000), ('resources', 140, 1500)]),
 }
